@@ -255,6 +255,15 @@ def check_same_scheme_semantics(ctx, rule, P, floor=2):
         roots = switch_roots(P, f)
         n += 1
         if len(roots) != 2:
+            # `mem::discriminant(self) == mem::discriminant(other)`: "the same variant" by the definition of discriminant
+            r0 = B.peel(strip_sites(evaluate(f).ret))
+            if r0.op == "call" and B.cname(r0) == "PartialEq::eq" and len(r0.a[1]) == 2:
+                ds = [B.peel(z) for z in r0.a[1]]
+                if all(d.op == "call" and B.cname(d).split("::")[-1] == "discriminant" and len(d.a[1]) == 1 for d in ds):
+                    ps = sorted(B.peel(d.a[1][0]).a[0] if B.peel(d.a[1][0]).op == "param" else -1 for d in ds)
+                    if ps == [1, 2]:
+                        ctx.ob(rule, k, True, "%s compares mem::discriminant of its two operands: true exactly on equal variants" % k, where=where(f))
+                        continue
             ctx.ob(rule, k, False, "%s does not dispatch on both operands' variants (roots: %s)" % (k, roots), where=where(f))
             continue
         bad = []
